@@ -185,6 +185,9 @@ def handle_refuted(pid, pm, refuted, seed, lock):
                 model = None
         native = None
         hook = hooks.get(rec['fuc']) or hooks.get(rec['fuc'].split('@')[0])
+        if os.environ.get('BSVC_NO_NATIVE'):       # engine self-test: obligations only, no scratch build
+            hook = None
+            sweeps = {}
         if hook is not None:
             try:
                 code = hook(model or {}, rec, seed)
